@@ -8,6 +8,7 @@ package c17
 import (
 	"crypto/sha1"
 	"encoding/hex"
+	"math"
 	"strconv"
 	"strings"
 
@@ -930,6 +931,18 @@ func unsafeReason(args []string) string {
 			}
 		}
 	}
+	if exclNonFinite {
+		for i, a := range in {
+			switch strings.ToLower(a) {
+			case "point", "bounds", "circle", "sector":
+				for k := i + 1; k < len(in) && k <= i+5; k++ {
+					if f, err := strconv.ParseFloat(strings.TrimSpace(in[k]), 64); err == nil && (math.IsNaN(f) || math.IsInf(f, 0)) {
+						return idNonFiniteCoords
+					}
+				}
+			}
+		}
+	}
 	switch name {
 	case "set", "jset":
 		if len(in) >= 2 && in[1] == "" {
@@ -1003,6 +1016,10 @@ func unsafeReason(args []string) string {
 // exclNearbyBuffer: NEARBY ... BUFFER ends the process (finding
 // crash-nearby-buffer); cleared when the subprocess probe shows it fixed.
 var exclNearbyBuffer = true
+
+// exclNonFinite: non-finite coordinates lead to JSON replies with bare NaN /
+// Inf (finding json-nonfinite-coordinates); set while its probe reproduces.
+var exclNonFinite = false
 
 // detaches: the command may take the connection out of request/reply mode
 // (live fence, SUBSCRIBE, MONITOR, AOF) or end it (QUIT).
